@@ -350,6 +350,79 @@ def discharge(obls, timeout=None, retry=True, use_cvc5=True, progress=None):
     return obls
 
 
+def _closed(t, depth=0):
+    """no de Bruijn variable escapes the term"""
+    seen = {}
+
+    def go(e, d):
+        k = (e.get_id(), d)
+        if k in seen:
+            return seen[k]
+        if z3.is_var(e):
+            r = z3.get_var_index(e) < d
+        elif z3.is_quantifier(e):
+            r = go(e.body(), d + e.num_vars())
+        else:
+            r = all(go(c, d) for c in e.children())
+        seen[k] = r
+        return r
+    return go(t, depth)
+
+
+def delambda(hyps, goal, axioms):
+    """z3's array-valued lambda terms are not SMT-LIB: every closed lambda is replaced by a fresh array constant with the
+    quantified definition  forall k. c[k] = body(k)  (an equivalent formulation for a refutation check).  -> (hyps, goal, axioms)"""
+    defs, cache, counter = [], {}, [0]
+
+    def go(e):
+        k = e.get_id()
+        if k in cache:
+            return cache[k]
+        if z3.is_quantifier(e) and e.is_lambda() and _closed(e):
+            nv = e.num_vars()
+            vs = [z3.Const(f"dl!k{counter[0]}_{i}", e.var_sort(i)) for i in range(nv)]
+            body = go(z3.substitute_vars(e.body(), *reversed(vs)))
+            c = z3.Const(f"dl!arr{counter[0]}", e.sort())
+            counter[0] += 1
+            defs.append(z3.ForAll(vs, z3.Select(c, *vs) == body))
+            cache[k] = c
+            return c
+        if z3.is_quantifier(e):
+            if e.is_lambda():
+                raise ValueError("open lambda")
+            vs = [z3.Const(f"dl!q{e.get_id()}_{i}", e.var_sort(i)) for i in range(e.num_vars())]
+            body = go(z3.substitute_vars(e.body(), *reversed(vs)))
+            r = z3.ForAll(vs, body) if e.is_forall() else z3.Exists(vs, body)
+            cache[k] = r
+            return r
+        if not z3.is_app(e) or e.num_args() == 0:
+            cache[k] = e
+            return e
+        ch = [go(c) for c in e.children()]
+        r = e.decl()(*ch) if any(not a.eq(b) for a, b in zip(ch, e.children())) else e
+        cache[k] = r
+        return r
+    h2 = [go(h) for h in hyps]
+    g2 = go(goal)
+    a2 = [go(a) for a in axioms]
+    return h2 + defs, g2, a2
+
+
+def _cvc5_text(o):
+    """SMT-LIB text for cvc5: lambdas removed; multi-index arrays stay unsupported"""
+    try:
+        hyps, goal, axioms = delambda(o.hyps, o.goal, getattr(o, "axioms", []))
+    except Exception:
+        return "(set-logic ALL)\n" + smt2_text(o)
+    s = z3.Solver()
+    for a in axioms:
+        s.add(a)
+    for h in hyps:
+        s.add(h)
+    s.add(z3.Not(goal))
+    return "(set-logic ALL)\n" + s.to_smt2()
+
+
 def cross_check(obls, budget_s=600, per_query_ms=10000, jobs=12):
     """Second opinion on discharged obligations: the plain SMT-LIB text of each one is given to cvc5 1.0.3.
     -> {"attempted", "confirmed_unsat", "undecided", "unsupported", "disagree": [ids]}.  `undecided` (timeout / unknown) and
@@ -362,7 +435,7 @@ def cross_check(obls, budget_s=600, per_query_ms=10000, jobs=12):
         if time.time() - t0 > budget_s / 4:
             break
         try:
-            texts.append((o, "(set-logic ALL)\n" + smt2_text(o)))       # text generation uses the z3 API: main thread only
+            texts.append((o, _cvc5_text(o)))       # text generation uses the z3 API: main thread only
         except Exception:
             continue
 
